@@ -289,8 +289,17 @@ def esc(ctx, prog, lib):
             ctx.violation("ESC-1", (E.path, repr(c)), "regex metacharacter %r (regex_syntax::is_meta_character) is not escaped in literals" % c, E.loc())
     for c in sorted(need & set(covered)):
         ctx.ok("ESC-1", "%s:%r" % (E.path, c), {"by": covered[c][0]}, E.loc(covered[c][2]))
-    # the escaped string is stored back for every element
+    # the escaped string is stored back for every element: through IndexMut (characters[i] = ..) or through the item of an iter_mut() loop (*character = ..)
     stores = [t for _, t in E.calls() if (callee_name(t) or "").endswith("IndexMut<I>>::index_mut")]
+    deref_stores = []
+    dE = local.Defs(E)
+    for bi_, blk_ in E.iter_blocks():
+        for st_ in blk_["stmts"]:
+            if st_["k"] == "assign" and st_["place"]["proj"] and st_["place"]["proj"][0]["k"] == "deref" and "String" in norm(st_["place"].get("ty") or ""):
+                tgt_ = dE.local(st_["place"]["l"])
+                if any(x[0] == "call" and re.search(r"IterMut<'a, T> as std::iter::Iterator>::next$|::iter_mut$|::get_mut$", x[1]) for x in local.walk(tgt_)):
+                    deref_stores.append((bi_, st_))
+    stores = stores + [st_ for _, st_ in deref_stores]
     if not stores and E.sig_output == "std::string::String":
         # the table escaper is a pure helper &str -> String: its callers store the result
         for cb, _, _ in guards.call_sites(lib, E.path):
@@ -298,7 +307,18 @@ def esc(ctx, prog, lib):
             for bb in (cb, root):
                 stores += [t for _, t in bb.calls() if (callee_name(t) or "").endswith("IndexMut<I>>::index_mut")
                            or (callee_name(t) or "").endswith("collect_vec") or (callee_name(t) or "").endswith("Iterator::collect")]
-    if stores:
+    # .. and for *every* element: inside the escaper the store is not skipped under any condition other than the loop's own
+    skipped = None
+    store_blocks = [(bi_, t_) for bi_, t_ in E.calls() if (callee_name(t_) or "").endswith("IndexMut<I>>::index_mut")] + deref_stores
+    for bi_, t_ in store_blocks:
+        gs_ = [g for g in guards.guards(E, bi_) if not g["loop"]]
+        if gs_:
+            skipped = (t_, [local.show(g["origin"])[:60] for g in gs_])
+    if skipped:
+        ctx.violation("ESC-2", (E.path, "entries skipped"), "the escaped string is stored back only under %s: the entries for which that does not hold are printed unescaped "
+                      "(a stored string that merely looks already escaped, such as a literal backslash followed by one more character, keeps its raw backslash)" % skipped[1],
+                      E.loc(skipped[0].get("line")))
+    elif stores:
         ctx.ok("ESC-2", E.path + ":result stored per element", None, E.loc(stores[0].get("line")))
     else:
         ctx.violation("ESC-2", (E.path, "store"), "escaped strings are not written back element-wise", E.loc())
@@ -367,6 +387,22 @@ def esc3(ctx, lib):
     appliers = {b.path for b, _, _ in guards.call_sites(lib, E.path)}
     appliers |= {lib.body(a).parent for a in list(appliers) if lib.body(a) is not None and lib.body(a).kind == "closure" and lib.body(a).parent}
     if on_cycle(E.path) or any(on_cycle(a) for a in appliers if a):
+        # the descent happens on every path: a direct recursive call is guarded by nothing but its own loop, and that loop is reached from every entry
+        fiE = guards.FnInfo.of(E)
+        rec = [(bi, t) for bi, t in E.calls() if callee_name(t) == E.path]
+        bad = None
+        for bi, t in rec:
+            gs = [g for g in guards.guards(E, bi) if not g["loop"] and fiE.cfg.dominates(g["block"], bi)]
+            loops = [h for h, body in fiE.cfg.natural_loops().items() if bi in body]
+            hdr = min(loops) if loops else bi
+            if gs:
+                bad = "the recursive call is additionally guarded by %s" % [local.show(g["origin"])[:50] for g in gs]
+            elif not fiE.cfg.postdominates(hdr, 0):
+                bad = "a path returns before the loop over the nested repetitions is reached (early return)"
+        if bad:
+            ctx.violation("ESC-3", (E.path, "conditional descent"), "escaping descends into nested repetitions only on some paths: %s; on the others the printer still prints every "
+                          "level, so metacharacters three levels down are printed raw (pattern rejected by the regex crate)" % bad, E.loc())
+            return
         ctx.ok("ESC-3", E.path + ":escaping recurses into nested repetitions", None, E.loc())
     else:
         ctx.violation("ESC-3", (E.path, "nested repetitions"),
@@ -427,7 +463,9 @@ def run(ctx):
     classprinter.raw1(ctx, lib, class_escape_closures(lib))
     # TRI-1 (shared with C05): a trie edge that earlier test cases traverse is never rewritten.  A widened edge (v,min,max) stands for the counts min..max, but the
     # minimiser tells labels apart by min or max only, so an inner count can be merged away (test case no longer matched).
-    from .C05 import tri1, lbl1
+    from .C05 import tri1, lbl1, lbl2
+    ctx.rule("LBL-2", "label identity in the automaton code is decided on the labels' entries (chars()), never on their joined text (value())")
+    lbl2(ctx, lib)
     ctx.rule("TRI-1", "no petgraph edge/node mutation other than add_node/add_edge is reachable from the trie insertion")
     ctx.rule("LBL-1", "predecessor states are collected under equality of the labels' values and agreement of their minimum or maximum (dominating true edge)")
     lbl1(ctx, lib, tri1(ctx, lib))
